@@ -237,10 +237,12 @@ def main():
 
     # 1. extraction from the current working tree
     havoc = []
+    # the 256 generated bit-vector lemmas are only spliced in (and only then verified) when the cone contains them
+    light_magic = not (tier == "thorough" or "magic" in spec["modules"] or "magic_lemmas" in spec["modules"])
 
     def do_extract():
         try:
-            return ex.extract(gen, rep_path, havoc=tuple(havoc))
+            return ex.extract(gen, rep_path, havoc=tuple(havoc), light_magic=light_magic)
         except ex.ExtractError as e:
             undecided("extract: %s" % e)
     report = do_extract()
@@ -383,6 +385,45 @@ def main():
             run_fail.append({"fn": fq, "message": msg, "class": cls, "rendered": d.get("rendered", "")})
         runs.append({"seed": sd, "wall_s": round(wall, 2), "results": this_run, "failures": run_fail,
                      "verified": vr.get("verified"), "errors": vr.get("errors")})
+    # isolated invocations (see @isolate in the sidecar): the function is verified with its listed callers hidden; in the
+    # main invocation it was visible through its contract only. Its result here is THE result for that obligation.
+    iso_results = {}
+    if frontend_failed is None:
+        for iso in report.get("isolated", []):
+            if iso["module"] not in spec["modules"] or iso["fn"] not in want:
+                continue
+            gen_i = os.path.join(bdir, "flounder_v_iso_%s.rs" % re.sub(r"[^A-Za-z0-9]+", "_", iso["fn"]))
+            try:
+                ex.extract(gen_i, rep_path + ".iso", havoc=tuple(havoc), light_magic=light_magic, variant="iso:" + iso["fn"])
+            except ex.ExtractError as e:
+                undecided("extract (isolated %s): %s" % (iso["fn"], e))
+            fn_short = "::".join(iso["fn"].split("::")[1:])
+            cmd_i, res_i, diags_i, err_i, wall_i = run_verus(gen_i, lib, [iso["module"]], rlimit, threads, None,
+                                                             extra=["--verify-function", fn_short], timeout=spec.get("timeout_s", 1500))
+            if res_i is None:
+                undecided("verus produced no result (isolated %s)" % iso["fn"], err_i)
+            ok = True
+            tms = 0
+            seen = False
+            for mt in res_i.get("times-ms", {}).get("smt", {}).get("smt-run-module-times", []):
+                for fb in mt.get("function-breakdown", []):
+                    if fb["function"].endswith("::" + fn_short.split("::")[-1]):
+                        seen = True
+                        ok = ok and bool(fb["success"])
+                        tms += fb.get("time", 0)
+            vr_i = res_i.get("verification-results", {})
+            if vr_i.get("encountered-vir-error") or not seen:
+                undecided("isolated run of %s did not reach verification" % iso["fn"], "\n".join(d.get("rendered", "") for d in diags_i if d.get("level") == "error"))
+            fails_i = []
+            idx_i = FnIndex(gen_i.replace("flounder_v_iso", "flounder_v_iso")) if False else None
+            for d in diags_i:
+                if d.get("level") == "error" and not d.get("message", "").startswith("aborting"):
+                    fails_i.append({"fn": iso["fn"], "message": d.get("message", ""),
+                                    "class": classify(d.get("message", "") + " " + " ".join(c.get("message", "") for c in d.get("children", []))),
+                                    "rendered": d.get("rendered", "")})
+            iso_results[iso["fn"]] = {"success": ok and not fails_i, "time_ms": tms, "rlimit": 0, "verus_names": [iso["fn"] + " (isolated)"],
+                                      "failures": fails_i, "cmd": " ".join(cmd_i), "wall_s": round(wall_i, 2)}
+            total_smt_ms += tms
     if frontend_failed is not None:
         # Verus cannot ingest the current text of a function that is under contract (or ghost code no longer type-checks
         # against a changed representation): the deductive check is undecided. A bounded native stand-in for the property,
@@ -417,6 +458,9 @@ def main():
             if fq in per_fn and per_fn[fq]["success"] != ent["success"]:
                 unstable.append(fq)
     failures = [f for f in first["failures"] if f["fn"] and not f["fn"].startswith("~")]
+    for fq, ent in iso_results.items():
+        per_fn[fq] = {k: v for k, v in ent.items() if k not in ("failures", "cmd", "wall_s")}
+        failures = [f for f in failures if f["fn"] != fq] + ent["failures"]
     foreign = [f for f in first["failures"] if not f["fn"] or f["fn"].startswith("~")]
 
     missing = sorted(fq for fq in want if "*" not in fq and fq not in per_fn and fq not in spec.get("no_query_ok", []))
@@ -511,6 +555,7 @@ def main():
             "verus_runs": [{"seed": r["seed"], "wall_s": r["wall_s"], "verified_items": r["verified"],
                             "errors_in_modules": r["errors"]} for r in runs],
             "failed_obligations": failed,
+            "isolated_invocations": [{"fn": k, "cmd": v["cmd"], "wall_s": v["wall_s"], "discharged": v["success"]} for k, v in iso_results.items()],
             "undecided": [list(u) for u in undec],
             "unstable": unstable,
             "contracts_without_smt_query": missing,
